@@ -169,8 +169,6 @@ def r03_3_cancellation(ctx):
                 before = _effects(ops)
             except StackError:
                 continue
-            if any(isinstance(c, tuple) and c[0] == "init" for c in before.s + before.mem.get("$log", [])):
-                continue
             blk = B.block("b0", ops)
             _run_optimizer(ctx, OpS, B, blk, [blk], {k})
             after_ops = blk.attrs["ops"]
@@ -190,12 +188,19 @@ def r03_3_cancellation(ctx):
             if problem:
                 removed = [o for o in ops if not any(o is x for x in after_ops)]
                 # classify: an unpaired store was deleted (a store that is not immediately followed by a deleted load of the same slot)
-                unpaired = False
-                for i, o in enumerate(ops):
-                    if any(o is x for x in removed) and o.attrs["op"].attrs["name"] == "store":
-                        nxt = ops[i + 1] if i + 1 < len(ops) else None
-                        if not (nxt is not None and any(nxt is x for x in removed) and nxt.attrs["op"].attrs["name"] == "load" and nxt.attrs["args"] == o.attrs["args"]):
-                            unpaired = True
+                # F8's shape: a slot was legitimately cancelled (an adjacent `store s; load s`, both deleted) and
+                # *another*, unpaired store of the same slot was deleted with it
+                def is_removed(o):
+                    return any(o is x for x in removed)
+
+                paired_slots, paired_ops = set(), []
+                for i, o in enumerate(ops[:-1]):
+                    nxt = ops[i + 1]
+                    if is_removed(o) and is_removed(nxt) and o.attrs["op"].attrs["name"] == "store" and nxt.attrs["op"].attrs["name"] == "load" and nxt.attrs["args"] == o.attrs["args"]:
+                        paired_slots.add(o.attrs["args"][0])
+                        paired_ops += [o, nxt]
+                rest = [o for o in removed if not any(o is x for x in paired_ops)]
+                unpaired = bool(rest) and all(o.attrs["op"].attrs["name"] == "store" and o.attrs["args"][0] in paired_slots for o in rest)
                 key = "optimizer:unpaired-store-deleted" if unpaired else "optimizer:cancellation-unsound"
                 bad.setdefault(key, (text, "; ".join(o.name for o in after_ops), problem))
             elif len(after_ops) != len(ops) and n % 7 == 0:
